@@ -232,6 +232,14 @@ def one_run(srv, sb, workdir, direction, remote, content, blk, w, tmo, label, ho
                     negotiated["blk"] = int("".join(str(x) for x in o["v"]) or "0")
         return on_packet(d, b)
 
+    # A burst larger than a default socket buffer (212 992 bytes of skb truesize) can be dropped in
+    # part by the kernel behind the proxy's back: what the proxy recorded as delivered is then not
+    # what the worker received, so such a run's wire trace is no evidence - only its final state is
+    # judged, and it gets the time that recovery by retransmission needs.
+    nb_run = len(content) // blk + 1
+    lossy = min(w, nb_run) * (srv.flags["dup"] + 1) * (blk + 800) > 140000
+    if lossy:
+        run_timeout = max(run_timeout, 60 + 3 * tmo * nb_run)
     proxy = Proxy(srv.port, host, on_packet=sniff, hold=hold, react=max(0.003, hold / 2), hold_data=srv.flags["dup"] > 0) if via_proxy else None
     port = proxy.port if proxy else srv.port
     if proxy:
@@ -250,7 +258,7 @@ def one_run(srv, sb, workdir, direction, remote, content, blk, w, tmo, label, ho
     log = proxy.log if proxy else []
     srv_ev, cli_ev = [], []
     refused = any(d == "s2c" and NET.parse(b)["k"] == "error" for d, b, _ in log[:3]) if proxy else ("received error" in (so + se).lower())
-    if proxy and not refused and log:
+    if proxy and not refused and log and not lossy:
         srv_ev, cli_ev, neg = build_traces(log, direction, content, srv.flags["dup"], srv.flags["clean"], label, proxy.log_client)
         # exits: the client process has ended; the server reports on stdout / stderr
         deadline = time.time() + 1.0
@@ -285,7 +293,7 @@ def one_run(srv, sb, workdir, direction, remote, content, blk, w, tmo, label, ho
     final = {"e": "final", "label": label, "dir": direction, "refused": bool(refused), "expect_refusal": expect_refusal,
              "target_exists": got is not None, "same": got == content, "strays": len(strays),
              "client_reported_error": ("error" in (so + se).lower()), "rc": rc, "timed_out": se == "TIMEOUT",
-             "args": args[:1] + args[5:]}
+             "args": args[:1] + args[5:], "wire_judged": bool(srv_ev)}
     return srv_ev, cli_ev, final
 
 
